@@ -149,13 +149,18 @@ var CatalogFiles = Files{
 	"p_badreq.vuego":            `<p>{{ canary }}</p><template include="c_card.vuego" sub="x"></template>`,
 	"p_badlate.vuego":           `<ul><li v-for="it in items">{{ it }}{{ canary }}</li></ul><div><div><p>{{ n | int | nosuch2 }}</p></div></div>`,
 	// layouts that name their own layout with a YAML scalar that is not a string (a year, a boolean)
-	"p_laynum.vuego":           "---\nlayout: cat_num\n---\n<p>{{ canary }}</p>",
-	"layouts/cat_num.vuego":    "---\nlayout: 2024\n---\n<article v-html=\"content\"></article>",
-	"layouts/2024.vuego":       "---\nlayout: true\n---\n<section class=\"y\" v-html=\"content\"></section>",
-	"layouts/true.vuego":       "<html><body><main v-html=\"content\"></main><i>{{ site }}</i></body></html>",
-	"p_laynumbad.vuego":        "---\nlayout: cat_num2\n---\n<p>{{ canary }}</p>",
-	"layouts/cat_num2.vuego":   "---\nlayout: 2025\n---\n<article v-html=\"content\"></article>",
-	"layouts/2025.vuego":       "<html><head><title>{{ canary | nosuch4 }}</title></head><body v-html=\"content\"></body></html>",
+	"p_laynum.vuego":         "---\nlayout: cat_num\n---\n<p>{{ canary }}</p>",
+	"layouts/cat_num.vuego":  "---\nlayout: 2024\n---\n<article v-html=\"content\"></article>",
+	"layouts/2024.vuego":     "---\nlayout: true\n---\n<section class=\"y\" v-html=\"content\"></section>",
+	"layouts/true.vuego":     "<html><body><main v-html=\"content\"></main><i>{{ site }}</i></body></html>",
+	"p_laynumbad.vuego":      "---\nlayout: cat_num2\n---\n<p>{{ canary }}</p>",
+	"layouts/cat_num2.vuego": "---\nlayout: 2025\n---\n<article v-html=\"content\"></article>",
+	"layouts/2025.vuego":     "<html><head><title>{{ canary | nosuch4 }}</title></head><body v-html=\"content\"></body></html>",
+	// two pages in different directories name the same layout: one has a file of that name next to it
+	"blog/p_post.vuego":        "---\nlayout: cat_wrap\n---\n<p>post {{ canary }}</p>",
+	"blog/cat_wrap.vuego":      "<section class=\"blog\" v-html=\"content\"></section>",
+	"docs/p_page.vuego":        "---\nlayout: cat_wrap\n---\n<p>doc {{ canary }}</p>",
+	"layouts/cat_wrap.vuego":   "<main class=\"site\" v-html=\"content\"></main>",
 	"p_badlayout.vuego":        "---\nlayout: cat_missing\n---\n<p>{{ canary }}</p>",
 	"p_badinlayout.vuego":      "---\nlayout: cat_broken\n---\n<p>{{ canary }}</p>",
 	"layouts/cat_broken.vuego": "<div><section v-html=\"content\"></section>{{ canary | nosuch3 }}</div>",
@@ -205,6 +210,8 @@ var Catalog = func() []Program {
 		{Name: "wrap", Page: "p_wrap.vuego", Data: d},
 		{Name: "inconce", Page: "p_inconce.vuego", Data: d},
 		{Name: "laynum", Page: "p_laynum.vuego", Data: d, HasFM: true, Layout: true},
+		{Name: "laysibling", Page: "blog/p_post.vuego", Data: d, HasFM: true, Layout: true},
+		{Name: "layshared", Page: "docs/p_page.vuego", Data: d, HasFM: true, Layout: true},
 		{Name: "laynumbad", Page: "p_laynumbad.vuego", Data: d, Fails: true, HasFM: true, Layout: true},
 		{Name: "badmid", Page: "p_badmid.vuego", Data: d, Fails: true},
 		{Name: "badattr", Page: "p_badattr.vuego", Data: d, Fails: true},
